@@ -1,6 +1,7 @@
 package props
 
 import (
+	"github.com/ExocoreNetwork/exocore/utils"
 	"testing"
 
 	"exoverif/sim"
@@ -37,6 +38,11 @@ func valsetConfig(t *rapid.T) sim.Config {
 		}
 	}
 	cfg.Assets[0].Decimals = []uint32{0, 6}[uniform(t, 2, "dec0V")]
+	if uniform(t, 2, "testnetV") == 0 {
+		// on a testnet chain id anybody can change the dogfood parameters: the maximum size of the
+		// validator set and the eligibility threshold then move in the middle of a history
+		cfg.ChainID = utils.TestnetChainID + "-1"
+	}
 	// a short x/slashing window: validators missing from the commits are slashed and jailed
 	// through the real downtime path and must leave the set at the next epoch end
 	cfg.Slashing = &sim.SlashingCfg{Window: int64(2 + uniform(t, 5, "windowV")), MinSigned: []string{"0.5", "1", "0.25"}[uniform(t, 3, "minSignedV")],
@@ -47,7 +53,7 @@ func valsetConfig(t *rapid.T) sim.Config {
 func init() {
 	w := map[string]int{
 		"nextBlock": 26, "depositLST": 8, "delegate": 14, "undelegate": 10, "optOut": 5, "optIn": 8, "setKey": 6,
-		"slash": 3, "jail": 2, "unjail": 1, "msgUnjail": 4, "associate": 2, "dissociate": 2, "nativeDelegate": 2,
+		"slash": 3, "jail": 2, "unjail": 1, "msgUnjail": 4, "associate": 2, "dissociate": 2, "nativeDelegate": 2, "setValsetParams": 4,
 	}
 	registerWorldProp(&WorldProp{
 		ID: "C06",
